@@ -14,11 +14,14 @@ def plan(tier, seed):
     jobs = [ch("C08", F, h, t, fun, env=dict(VERIF_SLEN=sl)) for h in
             ("h_hive_str", "h_hive_str_rest", "h_hive_int", "h_hive_bool_and_two_columns", "h_drill_str",
              "h_timestamp_text", "h_hive_two_levels", "h_hive_special_text")]
-    j = ch("C08", F, "h_hive_two_levels", t, fun, shape=dict(partition_columns="kk,k"),
-           env=dict(VERIF_SLEN=sl, VERIF_PNAMES="kk,k"))
-    j["name"] += "[names=kk,k]"
-    jobs.append(j)
+    # column names that are not identifiers are legal too (only '/' and '=' are excluded)
+    for names in ("kk,k", "site-id,unit price", "a.b,t\u00e9l\u00e9"):
+        j = ch("C08", F, "h_hive_two_levels", t, fun, shape=dict(partition_columns=names),
+               env=dict(VERIF_SLEN=sl, VERIF_PNAMES=names))
+        j["name"] += "[names=%s]" % names
+        jobs.append(j)
     jobs.append(ch("C08", F, "h_partition_rows", t, ["writer.partition_on_columns"]))
+    jobs.append(ch("C08", "vf/pyshim/h_c09.py", "h_path_string_sequence", t, ["util.path_string"]))
     jobs.append(ch("C08", "vf/pyshim/h_wfile.py", "h_append_scheme", t,
                    ["api.ParquetFile.write_row_groups", "writer.write_multi", "writer.partition_on_columns",
                     "api.paths_to_cats"]))
